@@ -243,4 +243,4 @@ def check(case: dict) -> dict:
     return {'nontrivial': nontrivial, 'classes': classes}
 
 
-ENGINES = [Engine('histories', cases, check, quick=40, thorough=800, batch=40)]
+ENGINES = [Engine('histories', cases, check, quick=120, thorough=1500, batch=60)]
